@@ -56,8 +56,46 @@ def sites(b):
     for i, blk in enumerate(b.blocks):
         t = blk["term"]
         if t["k"] == "assert" and t["msg"] not in ("MisalignedPointerDereference", "NullPointerDereference", "InvalidEnumConstruction"):
+            if t["msg"] == "Overflow" and _len_plus_small(b, blk, t):
+                out.append(("assert Overflow(len + small constant)", t.get("line"), t.get("exp")))
+                continue
             out.append(("assert %s" % t["msg"], t.get("line"), t.get("exp")))
     return out
+
+
+def _len_plus_small(b, blk, t):
+    """`x.len() + c` with a small constant c: a slice / Vec / str length is at most isize::MAX, the sum cannot overflow usize"""
+    from ..model import op_local
+    from .export import single_def
+    cl = t["cond"].get("l")
+    for st in blk["stmts"]:
+        if st["k"] == "assign" and st["place"]["l"] == cl and st["rv"]["k"] == "binop" and st["rv"].get("op") == "AddWithOverflow" \
+                and st["rv"].get("ty") == "usize":
+            a, c = st["rv"]["a"], st["rv"]["b"]
+            if a.get("k") == "const":
+                a, c = c, a
+            if c.get("k") != "const":
+                return False
+            try:
+                if int(str(c.get("val", "")).split("_")[0]) >= 1 << 32:
+                    return False
+            except ValueError:
+                return False
+            cur = op_local(a)
+            for _ in range(5):
+                d = single_def(b, cur) if cur is not None else None
+                if d is None:
+                    return False
+                if d[1] == "call":
+                    return d[2]["func"].get("fn", {}).get("path", "").rsplit("::", 1)[-1] == "len"
+                rv = d[2]["rv"]
+                if rv["k"] == "unop" and rv.get("op") == "PtrMetadata":
+                    return True
+                if rv["k"] == "use":
+                    cur = op_local(rv["o"])
+                else:
+                    return False
+    return False
 
 
 def inventory(lib):
@@ -124,6 +162,8 @@ def auto_reason(bid, sig, line, pair_ok, export_closures):
         return "lazy-const: first-use initialiser of an embedded literal"
     if "PoisonError" in sig:
         return "lock-poison: discharged by R-LOCK"
+    if sig == "assert Overflow(len + small constant)":
+        return "arith: a length (<= isize::MAX) plus a small constant cannot overflow usize"
     return None
 
 
